@@ -143,6 +143,10 @@ void sync_shallow_tree(const char *destination, const char *source,
     } else {
       throw_errno(trace);
     }
+    close(destination_fd);
+    free(*paths);
+    clean_up(destination);
+    return;
   }
 
   assert(!strstr(destination, "//"));
